@@ -118,6 +118,7 @@ func (w *World) verifyFunc(key string) (fc *FuncCtx) {
 		}
 		st.vars[rv] = fc.reg().Zero(rv.Type())
 	}
+	st.ghost["jslast"] = fc.fresh("jslast", types.Typ[types.String])
 	fc.bindGlobals(st, entryEnv, fc.contract)
 	for _, gi := range w.GlobalInvs {
 		// global invariants are proved once per package (verifyGlobalInvs) and hold everywhere
